@@ -342,6 +342,7 @@ impl From<ParseError> for DecoderError {
             ParseError::String(x) => DecoderError::InvalidString(x),
             ParseError::InvalidPrefix(p) => DecoderError::UnknownPrefix(p),
             ParseError::InvalidBase(b) => DecoderError::BadBaseIndex(b),
+            ParseError::InvalidRequiredInsertCount(n) => DecoderError::MissingRefs(n),
         }
     }
 }
